@@ -7,6 +7,7 @@ from lib import vlib
 CONF_CFG = """CONSTANTS MaxRetx = %d
   MaxPeerMsgs = 99
   IgnoreAfterDone = TRUE
+  OnceClose = TRUE
 INIT TInit
 NEXT TNext
 INVARIANT NotDone
@@ -39,7 +40,8 @@ def run(ctx):
     quick = ctx.tier == "quick"
     r1 = vlib.tlc_check(ctx.scratch, "HandshakeImpl", "HandshakeImpl_r1.cfg", workers=4)
     r1d = vlib.tlc_check(ctx.scratch, "HandshakeImpl", "HandshakeImpl_defect.cfg", workers=1, expect_violation="StableAfterOK")
-    ctx.log("R1: HandshakeImpl %d distinct states, HandshakeObs invariants hold; sensitivity config (CEAs not ignored after completion) violates StableAfterOK as it must" % r1["distinct"])
+    r1e = vlib.tlc_check(ctx.scratch, "HandshakeImpl", "HandshakeImpl_doubleclose.cfg", workers=1, expect_violation="NoCrash")
+    ctx.log("R1: HandshakeImpl %d distinct states, HandshakeObs invariants hold; sensitivity configs: CEAs not ignored after completion violates StableAfterOK, an unguarded second close of errc violates NoCrash, as they must" % r1["distinct"])
     ind = None
     if not quick and not ctx.replay:
         # unbounded safety of the model: inductive invariant, any retransmission budget
